@@ -57,9 +57,12 @@ def make_reply(rc, seq, arg1=0, arg2=0, arg3=0, data=b"", n_args=3):
 
 
 def cmd_fields(cid):
-    """The test command with identity cid (carried in arg1): destination, command code and data vary with it."""
-    return dict(x=cid % 7, y=cid % 5, p=cid % 17, cmd=2 + cid % 2, arg1=cid, arg2=(cid * 7919) & 0xffffffff,
-                arg3=cid % 3, data=bytes(bytearray((cid + i) & 0xff for i in range(cid % 6))))
+    """The test command with identity cid (carried in arg1): destination, command code and data vary with it
+    (all 18 cores, chip coordinates over the whole byte range, data of 0..5 or 64 bytes)."""
+    n = 64 if cid % 13 == 5 else cid % 6
+    return dict(x=(cid * 37) % 256, y=(cid * 11 + 3) % 256, p=cid % 18, cmd=(2, 3, 0, 26, 31)[cid % 5], arg1=cid,
+                arg2=(cid * 7919 + 0x80000000) & 0xffffffff, arg3=cid % 3,
+                data=bytes(bytearray((cid + i) & 0xff for i in range(n))))
 
 
 def make_request(f, seq):
@@ -153,6 +156,7 @@ class Net(object):
         self.sockets = []
         self.recv_sizes = set()
         self.tx_seq = {}           # transmission index -> sequence number on the wire
+        self.buffer_size = 256     # size of an SCP data buffer of the simulated machine (largest reply payload)
 
     # -- installation
     def install(self, module):
@@ -241,23 +245,26 @@ class RawScript(object):
 
 def echo_responder(net, tx, data, rc):
     """C06: the machine answers with the request's sequence number; the reply says which transmission
-    caused it (arg1 = tx) and carries a small payload."""
+    caused it (arg1 = tx) and carries a payload of 4 bytes, 16 bytes or a full buffer (net.buffer_size)."""
     d = decode(data)
-    return make_reply(rc, d["seq"], arg1=tx, arg2=d["args"][0] if d["args"] else 0, arg3=0,
-                      data=struct.pack("<I", tx & 0xffffffff))
+    n = (4, 4, 16, net.buffer_size, 4)[tx % 5]
+    payload = (struct.pack("<I", tx & 0xffffffff) + bytes(bytearray((tx + i) & 0xff for i in range(n))))[:max(n, 4)]
+    return make_reply(rc, d["seq"], arg1=tx, arg2=d["args"][0] if d["args"] else 0, arg3=0, data=payload)
 
 
 class FaultSim(object):
     """plan: {str(tx): {"lost": bool, "replies": [[delay, rc or None], ...]}}; transmissions not in the plan get
     `default` (one OK reply after 1 tick).  `lost` = the request never reaches the machine (the responder is
     not run); an empty `replies` with lost false = every reply is lost.  `exact`: indices of selects that,
-    when they time out, wake exactly at the requested timeout instead of one tick later.  `max_selects`
+    when they time out, wake exactly at the requested timeout instead of one tick later; `late`: {select index:
+    extra ticks by which that select oversleeps}.  `max_selects`
     bounds the run (ScriptExhausted beyond it)."""
 
-    def __init__(self, plan, responder=echo_responder, exact=(), max_selects=100000, default=None):
+    def __init__(self, plan, responder=echo_responder, exact=(), max_selects=100000, default=None, late=None):
         self.plan = plan
         self.responder = responder
         self.exact = set(exact)
+        self.late = dict((int(k), v) for k, v in (late or {}).items())   # select index -> extra ticks overslept
         self.pending = []          # [arrival, order, bytes]
         self.order = 0
         self.max_selects = max_selects
@@ -281,8 +288,8 @@ class FaultSim(object):
         due = [p for p in self.pending if p[0] <= now]
         after = now
         if not due:
-            wake = now + timeout + (0 if (k in self.exact and timeout > 0) else 1)
-            nxt = min([p[0] for p in self.pending] or [None], key=lambda v: (v is None, v))
+            wake = now + timeout + (0 if (k in self.exact and timeout > 0) else 1) + self.late.get(k, 0)
+            nxt = min([p[0] for p in self.pending]) if self.pending else None
             if nxt is not None and nxt <= now + timeout:
                 after = nxt
                 due = [p for p in self.pending if p[0] <= after]
